@@ -296,9 +296,12 @@ impl Transformer {
                         .add_shadowing_identifier(param, *param_span)?;
                 }
 
-                // Register local variable identifiers before transforming the body,
-                // since the body expression may reference them (where clauses).
+                // Local variables (where clauses) are defined one after the other, like
+                // in the type checker and the compiler: a local variable is visible in
+                // the definitions that follow it and in the body, but not in its own
+                // definition (`where h = 2 h` refers to the unit).
                 for def in &mut *local_variables {
+                    fn_body_transformer.transform_expression(&mut def.expr);
                     fn_body_transformer
                         .variable_names
                         .push(def.identifier.to_compact_string());
@@ -309,11 +312,6 @@ impl Transformer {
 
                 if let Some(expr) = body {
                     fn_body_transformer.transform_expression(expr);
-                }
-
-                // Now transform the local variable expressions
-                for def in local_variables {
-                    fn_body_transformer.transform_expression(&mut def.expr);
                 }
             }
             Statement::DefineDimension(_, name, _) => {
